@@ -82,6 +82,16 @@ def _specials():
     add('i1', lambda m, x: m.i1(x), ss.i1, 0.1, 4.0)
     add('iv1.5', lambda m, x: m.iv(1.5, x), lambda x: ss.iv(1.5, x), 0.3, 4.0)
     add('ive1.5', lambda m, x: m.ive(1.5, x), lambda x: ss.ive(1.5, x), 0.3, 4.0)
+    # negative arguments (integer orders): the scaled / even / odd symmetries must carry over to the derivative
+    add('i0-neg', lambda m, x: m.i0(x), ss.i0, -4.0, -0.1)
+    add('i1-neg', lambda m, x: m.i1(x), ss.i1, -4.0, -0.1)
+    add('iv2-neg', lambda m, x: m.iv(2, x), lambda x: ss.iv(2, x), -4.0, -0.3)
+    add('ive0-neg', lambda m, x: m.ive(0, x), lambda x: ss.ive(0, x), -4.0, -0.3)
+    add('ive1', lambda m, x: m.ive(1, x), lambda x: ss.ive(1, x), 0.3, 4.0)
+    add('ive1-neg', lambda m, x: m.ive(1, x), lambda x: ss.ive(1, x), -4.0, -0.3)
+    add('j0-neg', lambda m, x: m.j0(x), ss.j0, -9.0, -0.2)
+    add('j1-neg', lambda m, x: m.j1(x), ss.j1, -9.0, -0.2)
+    add('jn3', lambda m, x: m.jn(3, x), lambda x: ss.jn(3, x), -6.0, 6.0)
     add('beta_a', lambda m, x: m.beta(x, 1.7), lambda x: ss.beta(x, 1.7), 0.4, 4.0)
     add('beta_b', lambda m, x: m.beta(2.3, x), lambda x: ss.beta(2.3, x), 0.4, 4.0)
     add('betaln_a', lambda m, x: m.betaln(x, 1.7), lambda x: ss.betaln(x, 1.7), 0.4, 4.0)
@@ -105,7 +115,7 @@ def _specials():
     return d
 
 
-SPECIALS = ['j0', 'y0', 'j1', 'y1', 'jn2', 'yn2', 'i0', 'i1', 'iv1.5', 'ive1.5', 'beta_a', 'beta_b', 'betaln_a',
+SPECIALS = ['i0-neg', 'i1-neg', 'iv2-neg', 'ive0-neg', 'ive1', 'ive1-neg', 'j0-neg', 'j1-neg', 'jn3', 'j0', 'y0', 'j1', 'y1', 'jn2', 'yn2', 'i0', 'i1', 'iv1.5', 'ive1.5', 'beta_a', 'beta_b', 'betaln_a',
             'betaln_b', 'betainc_x', 'polygamma1', 'psi', 'digamma', 'gamma', 'gammaln', 'rgamma', 'gammainc_x',
             'gammaincc_x', 'multigammaln', 'erf', 'erfc', 'erfinv', 'erfcinv', 'logit', 'expit']
 
